@@ -942,7 +942,7 @@ def _verify_fresh(case, obs):
     import multiprocessing
     import subprocess
     import sys
-    if multiprocessing.current_process().name == "MainProcess" or os.environ.get("C19_FRESH_CHILD") or _FRESH[0] >= 6:
+    if multiprocessing.current_process().name == "MainProcess" or os.environ.get("C19_FRESH_CHILD") or _FRESH[0] >= 4:
         return obs
     try:
         msg = _m_oracle(case, obs)
